@@ -495,7 +495,7 @@ def _dbn_events(nh):
     evs = []
     for h in range(nh):
         for x, y in itertools.product("XY", repeat=2):
-            for s, t in ((0, 0), (0, 1), (1, 1), (1, 0), (0, 2)):
+            for s, t in ((0, 0), (0, 1), (1, 1), (1, 0), (0, 2), (2, 2), (1, 2)):  # later slices are normalised to 0/1
                 evs.append(["add_edge", h, [x, s], [y, t]])
         for x in "XY":
             evs.append(["add_node", h, x])
